@@ -6,6 +6,7 @@ package main
 // order; range-over-map forks over every iteration order.
 
 import (
+	"strconv"
 	"fmt"
 	"go/types"
 	"sort"
@@ -90,6 +91,13 @@ func debMachine(p *Prog, sc debScenario) *Machine {
 		m.Hooks[full] = func(m *Machine, st *State, call *ssa.CallCommon, args []Val) ([]Val, bool) {
 			extra := ""
 			for _, a := range args[1:] {
+				if elems, _, ok := m.sliceElems(st, a); ok && call.Signature().Variadic() {
+					// decoder options
+					for _, e := range elems {
+						extra += "," + debProv(st, e)
+					}
+					continue
+				}
 				extra += "," + valStr(a)
 			}
 			note(st, "ctor:"+short+"("+debProv(st, args[0])+extra+")")
@@ -102,6 +110,17 @@ func debMachine(p *Prog, sc debScenario) *Machine {
 				return []Val{&TupleV{E: []Val{nilV{}, IfaceV{T: errType, V: short + " header error"}}}}, true
 			}
 			return []Val{&TupleV{E: []Val{res, nilV{}}}}, true
+		}
+	}
+	// options of the zstd decoder: opaque values that name themselves
+	for _, opt := range []string{"WithDecoderLowmem", "WithDecoderConcurrency", "WithDecoderMaxMemory", "WithDecoderDicts", "WithDecoderMaxWindow", "WithDecoderDictRaw", "WithDecodeAllCapLimit", "WithDecodeBuffersBelow", "IgnoreChecksum"} {
+		opt := opt
+		m.Hooks["github.com/klauspost/compress/zstd."+opt] = func(m *Machine, st *State, call *ssa.CallCommon, args []Val) ([]Val, bool) {
+			var as []string
+			for _, a := range args {
+				as = append(as, valStr(a))
+			}
+			return []Val{OpaqueV{"zstdopt:" + opt + "(" + strings.Join(as, " ") + ")"}}, true
 		}
 	}
 	m.Hooks["io.NopCloser"] = func(m *Machine, st *State, call *ssa.CallCommon, args []Val) ([]Val, bool) {
@@ -129,6 +148,7 @@ func debMachine(p *Prog, sc debScenario) *Machine {
 		return []Val{&TupleV{E: []Val{Ptr{Obj: id}, nilV{}}}}, true
 	}
 	m.Hooks["bufio.NewReader"] = func(m *Machine, st *State, call *ssa.CallCommon, args []Val) ([]Val, bool) {
+		note(st, "bufionew:"+debProv(st, args[0])) // a new buffered reader starts at the member's beginning
 		return []Val{opaque(st, "bufio("+debProv(st, args[0])+")")}, true
 	}
 	// the version line of debian-binary: one line, then the end of the member
@@ -137,6 +157,9 @@ func debMachine(p *Prog, sc debScenario) *Machine {
 		for _, ef := range st.Effects {
 			if ef == "readline:debian-binary" {
 				n++
+			}
+			if strings.HasPrefix(ef, "bufionew:") {
+				n = 0
 			}
 		}
 		st.Effects = append(st.Effects, "readline:debian-binary")
@@ -165,6 +188,19 @@ func debMachine(p *Prog, sc debScenario) *Machine {
 	m.Hooks["(*io.SectionReader).Seek"] = func(m *Machine, st *State, call *ssa.CallCommon, args []Val) ([]Val, bool) {
 		note(st, fmt.Sprintf("seek:%s:%s:%s", debProv(st, args[0]), valStr(args[1]), valStr(args[2])))
 		return []Val{&TupleV{E: []Val{int64(0), nilV{}}}}, true
+	}
+	// readers of their own over a member: io.NewSectionReader(member, off, n); every scripted member k is 1000+k bytes
+	m.Hooks["io.NewSectionReader"] = func(m *Machine, st *State, call *ssa.CallCommon, args []Val) ([]Val, bool) {
+		return []Val{opaque(st, fmt.Sprintf("section(%s,%s,%s)", debProv(st, args[0]), valStr(args[1]), valStr(args[2])))}, true
+	}
+	m.Hooks["(*io.SectionReader).Size"] = func(m *Machine, st *State, call *ssa.CallCommon, args []Val) ([]Val, bool) {
+		who := debProv(st, args[0])
+		if i := strings.LastIndex(who, "#"); i >= 0 && strings.HasPrefix(who, "data(") && strings.HasSuffix(who, ")") {
+			if k, err := strconv.Atoi(who[i+1 : len(who)-1]); err == nil {
+				return []Val{int64(1000 + k)}, true
+			}
+		}
+		return nil, false
 	}
 	m.Hooks["strings.NewReader"] = func(m *Machine, st *State, call *ssa.CallCommon, args []Val) ([]Val, bool) {
 		return []Val{opaque(st, "strings("+valStr(args[0])+")")}, true
@@ -207,7 +243,7 @@ func debMachine(p *Prog, sc debScenario) *Machine {
 func mkArEntry(p *Prog, st *State, name string, k int) Val {
 	entT := p.Named("deb", "ArEntry")
 	d := st.alloc(types.Typ[types.Int], OpaqueV{fmt.Sprintf("data(%s#%d)", name, k)})
-	id := st.alloc(entT, mkStruct(entT, map[string]Val{"Name": name, "Data": Ptr{Obj: d}}))
+	id := st.alloc(entT, mkStruct(entT, map[string]Val{"Name": name, "Data": Ptr{Obj: d}, "Size": int64(1000 + k)}))
 	return Ptr{Obj: id}
 }
 
@@ -303,7 +339,7 @@ func runCheckDebsig(p *Prog, members []string, role string, verifyOK bool) ([]si
 	if fn == nil || debT == nil {
 		return nil, "deb.Deb.CheckDebsig not found"
 	}
-	m := debMachine(p, debScenario{})
+	m := debMachine(p, debScenario{binary: "2.0\n"})
 	var verified []string
 	verify := func(m *Machine, st *State, call *ssa.CallCommon, args []Val) ([]Val, bool) {
 		// effects so far in THIS run are in st.Effects (copied below)
@@ -362,7 +398,7 @@ func runCheckDebsigTwice(p *Prog, members []string, role string) (secondErrNil b
 	if fn == nil || debT == nil {
 		return false, nil, "deb.Deb.CheckDebsig not found"
 	}
-	m := debMachine(p, debScenario{})
+	m := debMachine(p, debScenario{binary: "2.0\n"})
 	verify := func(m *Machine, st *State, call *ssa.CallCommon, args []Val) ([]Val, bool) {
 		kr := debProv(st, args[0])
 		st.Effects = append(st.Effects, "verify:"+kr+"|"+debProv(st, args[1])+"|"+debProv(st, args[2]))
